@@ -265,7 +265,10 @@ def read_enum(
     reader_schema=None,
     options={},
 ):
-    symbol = writer_schema["symbols"][decoder.read_enum()]
+    index = decoder.read_enum()
+    if index < 0:
+        raise IndexError(f"enum index {index} out of range")
+    symbol = writer_schema["symbols"][index]
     if reader_schema and symbol not in reader_schema["symbols"]:
         default = reader_schema.get("default")
         if default:
@@ -399,6 +402,8 @@ def read_union(
 ):
     # schema resolution
     index = decoder.read_index()
+    if index < 0:
+        raise IndexError(f"union index {index} out of range")
     idx_schema = writer_schema[index]
     idx_reader_schema = None
 
@@ -474,6 +479,8 @@ def read_union(
 def skip_union(decoder, writer_schema, named_schemas):
     # schema resolution
     index = decoder.read_index()
+    if index < 0:
+        raise IndexError(f"union index {index} out of range")
     skip_data(decoder, writer_schema[index], named_schemas)
 
 
